@@ -210,11 +210,27 @@ class MemberLift(Lift):
         return {"text": body, "line": line, "file": self.src, "raw": raw, "nloops": nloops, "header": ""}
 
 
+class CanonLoopVar(Rule):
+    """rename the counter declared in `for (std::size_t NAME = ...` to vx_k (the loop contract has to name it in its
+    assigns clause; a renamed local must not become an extraction failure)"""
+    n = None
+
+    def apply(self, text):
+        names = set(re.findall(r"\bfor\s*\(\s*std::size_t\s+(\w+)\s*=", text))
+        if len(names) > 1:
+            raise LiftError("CanonLoopVar: several differently named loop counters")
+        for nm in names:
+            text = re.sub(r"\b%s\b" % re.escape(nm), "vx_k", text)
+        return text
+
+
 QUAL = Sub(r"\bstop_state::(?=\w+\b(?!\s*\())", "", None)      # stop_state::locked_flag -> locked_flag
 AUTO = Sub(r"\bauto\b(?=\s+\w+\s*=)", "uint64_t", None)          # `auto x = <word expr>` (std::uint64_t everywhere here)
 YIELD = Call(r"\bpika::execution::this_thread::detail::yield_k", "yield_k({0})", None)
 LOAD = Call(r"(?<![\w.>])state_\.load", "atomic_load(&self->state_)", "+")
 CAS = Call(r"(?<![\w.>])state_\.compare_exchange_weak", "atomic_cas_weak(&self->state_, &{0}, {1})", 1)
+FETCH_SELF = Call(r"(?<![\w.>])state_\.fetch_(add|sub)", "atomic_fetch_{h1}(&self->state_, {0})", 1)   # which one is semantics: captured
+FETCH_P = Call(r"\b(\w+)->state_\.fetch_(add|sub)", "atomic_fetch_{h2}(&{h1}->state_, {0})", 1)
 EXEC = Call(r"\b(\w+)->execute", "cb_execute({h1})", "+")
 FLAG = Call(r"\b(\w+)->callback_finished_executing_\.store", "flag_store({h1}, {0})", "+")
 
@@ -250,7 +266,7 @@ __CPROVER_loop_invariant(!lin && !g_held && g_mytok == __CPROVER_loop_entry(g_my
 __CPROVER_loop_invariant(expected == (old_state & ~S_LOCKBIT))
 %s""" % (S_ASSIGNS, RELY_INV)
 LOOP_LOCK_INNER = """
-__CPROVER_assigns(k, %s)
+__CPROVER_assigns(vx_k, %s)
 __CPROVER_loop_invariant(!lin && !g_held && g_mytok == __CPROVER_loop_entry(g_mytok) && g_mysrc == __CPROVER_loop_entry(g_mysrc))
 %s""" % (S_ASSIGNS, RELY_INV)
 # lock_and_request_stop / lock_if_not_stopped: the retry must never be prepared from a word whose stop bit is set
@@ -267,7 +283,7 @@ __CPROVER_loop_invariant(expected == (old_state & ~S_LOCKBIT))
 __CPROVER_loop_invariant(!W_STOP(old_state))
 %s""" % (S_ASSIGNS, RELY_INV)
 LOOP_LINS_INNER = """
-__CPROVER_assigns(k, %s, cb->m)
+__CPROVER_assigns(vx_k, %s, cb->m)
 __CPROVER_loop_invariant(!lin && !g_held && g_mytok == __CPROVER_loop_entry(g_mytok) && g_mysrc == __CPROVER_loop_entry(g_mysrc) && cb->g_exec == 0 && !cb->callback_finished_executing_ && !cb->g_dead)
 __CPROVER_loop_invariant(!W_STOP(old_state))
 %s""" % (S_ASSIGNS, RELY_INV)
@@ -289,34 +305,34 @@ UNITS = [
     # ---- unit 2: S ----
     word_unit("word.rg_lemmas", "U_RG_LEMMAS", None, None, [], kind="lemma", min_obligations=4),
     word_unit("state.lock", "U_LOCK", "lock",
-              Lift(CPP, r"void stop_state::lock\(\)", rules=[LOAD, CAS, YIELD, QUAL, AUTO],
+              Lift(CPP, r"void stop_state::lock\(\)", rules=[CanonLoopVar(), LOAD, CAS, YIELD, QUAL, AUTO],
                    loops={1: LOOP_LOCK_OUTER, 2: LOOP_LOCK_INNER, "count": 2}), [FN["lock"]], min_obligations=40),
     word_unit("state.unlock", "U_UNLOCK", "unlock",
               Lift(HPP, r"void unlock\(\) noexcept", rules=[
-                  StripComments(), Call(r"(?<![\w.>])state_\.fetch_sub", "atomic_fetch_sub(&self->state_, {0})", 1), QUAL]),
+                  StripComments(), FETCH_SELF, QUAL]),
               [FN["unlock"]], min_obligations=10),
     word_unit("state.lock_and_request_stop", "U_LOCK_AND_REQUEST_STOP", "lock_and_request_stop",
-              Lift(CPP, r"bool stop_state::lock_and_request_stop\(\)", rules=[LOAD, CAS, YIELD, QUAL, AUTO],
+              Lift(CPP, r"bool stop_state::lock_and_request_stop\(\)", rules=[CanonLoopVar(), LOAD, CAS, YIELD, QUAL, AUTO],
                    loops={1: LOOP_STOP_OUTER, 2: LOOP_STOP_INNER, "count": 2}), [FN["lars"]], min_obligations=40),
     word_unit("state.lock_if_not_stopped", "U_LOCK_IF_NOT_STOPPED", "lock_if_not_stopped",
-              Lift(CPP, r"bool stop_state::lock_if_not_stopped\(", rules=[LOAD, CAS, YIELD, EXEC, FLAG, QUAL, AUTO],
+              Lift(CPP, r"bool stop_state::lock_if_not_stopped\(", rules=[CanonLoopVar(), LOAD, CAS, YIELD, EXEC, FLAG, QUAL, AUTO],
                    loops={1: LOOP_LINS_OUTER, 2: LOOP_LINS_INNER, "count": 2}), [FN["lins"]], min_obligations=40),
     word_unit("state.add_source_count", "U_ADD_SOURCE_COUNT", "add_source_count",
               Lift(HPP, r"void add_source_count\(\)", rules=[
-                  StripComments(), Call(r"(?<![\w.>])state_\.fetch_add", "atomic_fetch_add(&self->state_, {0})", 1), QUAL]),
+                  StripComments(), FETCH_SELF, QUAL]),
               [FN["asc"]], min_obligations=10),
     word_unit("state.remove_source_count", "U_REMOVE_SOURCE_COUNT", "remove_source_count",
               Lift(HPP, r"void remove_source_count\(\)", rules=[
-                  StripComments(), Call(r"(?<![\w.>])state_\.fetch_sub", "atomic_fetch_sub(&self->state_, {0})", 1), QUAL]),
+                  StripComments(), FETCH_SELF, QUAL]),
               [FN["rsc"]], min_obligations=10),
     word_unit("state.intrusive_ptr_add_ref", "U_ADD_REF", "intrusive_ptr_add_ref",
               Lift(CPP, r"void intrusive_ptr_add_ref\(stop_state\* p\)", rules=[
-                  Call(r"\b(\w+)->state_\.fetch_add", "atomic_fetch_add(&{h1}->state_, {0})", 1), QUAL]),
+                  FETCH_P, QUAL]),
               [FN["addref"]], min_obligations=10),
     word_unit("state.intrusive_ptr_release", "U_RELEASE", "intrusive_ptr_release",
               Lift(CPP, r"void intrusive_ptr_release\(stop_state\* p\)", rules=[
-                  Call(r"\b(\w+)->state_\.fetch_sub", "atomic_fetch_sub(&{h1}->state_, {0})", 1),
-                  Sub(r"\bdelete (\w+);", r"stop_state_delete(\1);", 1), QUAL]),
+                  FETCH_P,
+                  Sub(r"\bdelete (\w+);", r"stop_state_delete(\1);", None), QUAL]),
               [FN["release"]], min_obligations=10),
 ]
 
@@ -346,19 +362,17 @@ SCALAR_CTOR_RULES = [
     Sub(r"VX_MEMINIT\((\w+), ([^;]+)\);", r"self->\1 = \2;", 2),
     QUAL,
 ]
-FETCH_ADD_SELF = Call(r"(?<![\w.>])state_\.fetch_add", "atomic_fetch_add(&self->state_, {0})", 1)
-FETCH_SUB_SELF = Call(r"(?<![\w.>])state_\.fetch_sub", "atomic_fetch_sub(&self->state_, {0})", 1)
 LEDGER_LIFTS = {
     "consts": CONSTS,
     "stop_state_ctor": MemberLift(HPP, "stop_state", r"\bstop_state\(\)", "ctor", rules=SCALAR_CTOR_RULES,
                                   expect_members=["state_", "callbacks_", "signalling_thread_"]),
-    "add_source_count": Lift(HPP, r"void add_source_count\(\)", rules=[StripComments(), FETCH_ADD_SELF, QUAL]),
-    "remove_source_count": Lift(HPP, r"void remove_source_count\(\)", rules=[StripComments(), FETCH_SUB_SELF, QUAL]),
+    "add_source_count": Lift(HPP, r"void add_source_count\(\)", rules=[StripComments(), FETCH_SELF, QUAL]),
+    "remove_source_count": Lift(HPP, r"void remove_source_count\(\)", rules=[StripComments(), FETCH_SELF, QUAL]),
     "add_ref": Lift(CPP, r"void intrusive_ptr_add_ref\(stop_state\* p\)", rules=[
-        Call(r"\b(\w+)->state_\.fetch_add", "atomic_fetch_add(&{h1}->state_, {0})", 1), QUAL]),
+        FETCH_P, QUAL]),
     "release": Lift(CPP, r"void intrusive_ptr_release\(stop_state\* p\)", rules=[
-        Call(r"\b(\w+)->state_\.fetch_sub", "atomic_fetch_sub(&{h1}->state_, {0})", 1),
-        Sub(r"\bdelete (\w+);", r"stop_state_delete(\1);", 1), QUAL]),
+        FETCH_P,
+        Sub(r"\bdelete (\w+);", r"stop_state_delete(\1);", None), QUAL]),
 }
 
 
@@ -408,6 +422,62 @@ UNITS += [
 
 
 
+def loop_body_span(text, ordinal):
+    """(open, close) of the `{...}` body of the ordinal-th for/while loop (textual order) of a function body"""
+    found = []
+    if re.search(r"\bdo\b", text):
+        raise LiftError("loop_body_span: do-loops not supported")
+    for m in re.finditer(r"\b(for|while)\b", text):
+        j = m.end()
+        while text[j].isspace():
+            j += 1
+        if text[j] != "(":
+            continue
+        k = L.match_close(text, j) + 1
+        while text[k].isspace():
+            k += 1
+        if text[k] != "{":
+            raise LiftError("loop %d has no block body" % (len(found) + 1))
+        found.append((k, L.match_close(text, k, "{", "}")))
+    if ordinal < 1 or ordinal > len(found):
+        raise LiftError("loop %d not found (%d loops)" % (ordinal, len(found)))
+    return found[ordinal - 1]
+
+
+class LoopBodyLift(Lift):
+    """the body `{...}` of the ordinal-th loop of a function, as a fragment unit ("one iteration"; DESIGN 3.1).  The body
+    must be closed: it may use only `this` and variables it declares itself (checked by the C compiler: anything else is
+    an undeclared identifier)."""
+
+    def __init__(self, src, locate, ordinal, rules=(), post=()):
+        Lift.__init__(self, src, locate, rules=rules, post=post)
+        self.ordinal = ordinal
+
+    def run(self):
+        body, line, header = L.locate(self.src, self.locate)
+        body = L.resolve_pp(body)
+        a, b = loop_body_span(body, self.ordinal)
+        frag = body[a:b + 1]
+        line += body.count("\n", 0, a)
+        text = L.apply_rules(frag, self.rules)
+        text = L.apply_rules(text, L.GENERIC_RULES)
+        text = L.apply_rules(text, self.post)
+        return {"text": text, "line": line, "file": self.src, "raw": frag, "nloops": 0, "header": header}
+
+
+class OutlineLoop(Rule):
+    """replace the body of the ordinal-th loop by a call of the function that a LoopBodyLift unit proves for exactly that
+    text (outlining of a closed block: purely syntactic).  Must be the first rule of the lift."""
+    n = 1
+
+    def __init__(self, ordinal, call):
+        self.ordinal, self.call = ordinal, call
+
+    def apply(self, text):
+        a, b = loop_body_span(text, self.ordinal)
+        return text[:a] + "{ " + self.call + " }" + text[b + 1:]
+
+
 class ContractsFrom(Lift):
     """splice the signature + contract clauses of the named //@FUNC functions of another template of this spec as
     declarations (so that a caller unit uses verbatim the contract that the callee's own unit proves)"""
@@ -453,6 +523,10 @@ def scoped(cls, what):
 
 CB_COMMON = dict(WORD_LIFTS, callee_contracts=ContractsFrom("word.c", ["lock", "unlock", "lock_and_request_stop", "lock_if_not_stopped"]),
                  add_this=ADD_THIS, remove_this=REMOVE_THIS,
+                 b_lock=Lift(CPP, r"void stop_state::lock\(\)", rules=[CanonLoopVar(), LOAD, CAS, YIELD, QUAL, AUTO], loops={"count": 2}),
+                 b_unlock=Lift(HPP, r"void unlock\(\) noexcept", rules=[
+                     StripComments(), FETCH_SELF, QUAL]),
+                 b_lars=Lift(CPP, r"bool stop_state::lock_and_request_stop\(\)", rules=[CanonLoopVar(), LOAD, CAS, YIELD, QUAL, AUTO], loops={"count": 2}),
                  slins_ctor=scoped("scoped_lock_if_not_stopped", "ctor"), slins_dtor=scoped("scoped_lock_if_not_stopped", "dtor"),
                  slins_bool=scoped("scoped_lock_if_not_stopped", "bool"),
                  slars_ctor=scoped("scoped_lock_and_request_stop", "ctor"), slars_dtor=scoped("scoped_lock_and_request_stop", "dtor"),
@@ -474,30 +548,36 @@ LOOP_SPIN = """
 __CPROVER_assigns(g_V.m, cbg.waited)
 __CPROVER_loop_invariant(!g_held && g_V.g_exec >= 0 && g_V.g_exec <= 1)
 """
+
+RS = r"bool stop_state::request_stop\(\)"
+STEP_RULES = [
+    Guard(r"detail::unlock_guard<stop_state> (\w+)\(\*this\);",
+          r"struct unlock_guard \1; unlock_guard_ctor(&\1, self);", r"unlock_guard_dtor(&\1);", None),
+    EXEC, FLAG,
+    Sub(r"\bauto\* (\w+) =", r"struct stop_callback_base *\1 =", 1),
+    Members(["callbacks_"]),
+]
+SLARS_RULES = [
+    Guard(r"scoped_lock_and_request_stop (\w+)\(\*this\);",
+          r"struct scoped_lock \1; scoped_lock_and_request_stop_ctor(&\1, self);", r"scoped_lock_and_request_stop_dtor(&\1);", 1),
+    Sub(r"\(!l\)", "(!scoped_lock_and_request_stop_bool(&l))", 1),
+    LOAD, GET_SELF,
+]
+
+
+def RS_BODY(loop, outline):
+    if outline:   # loop body replaced by a call of drain_step (proved by cb.request_stop.step for the same text)
+        rules = [OutlineLoop(1, "drain_step(self);")] + SLARS_RULES + [Members(["callbacks_", "signalling_thread_"])]
+    else:
+        rules = SLARS_RULES + STEP_RULES[:-1] + [Members(["callbacks_", "signalling_thread_"])]
+    return Lift(CPP, RS, rules=rules, loops=({1: loop, "count": 1} if loop else {"count": 1}))
+
+
 LOOP_DRAIN = """
-__CPROVER_assigns(CB_FRAME)
-__CPROVER_loop_invariant(g_held && g_won && g_i_am_signaller && g_sig_exists && g_mytok == 0 && g_mysrc == 1 && !g_seq && !g_waited)
-__CPROVER_loop_invariant(W_INV(self->state_) && W_LOCK(self->state_) && self->signalling_thread_ == g_self_id)
+__CPROVER_assigns(CB_FRAME_W)
+__CPROVER_loop_invariant(SINV(self))
 __CPROVER_loop_invariant(g_win_old == __CPROVER_loop_entry(g_win_old) && g_win_new == __CPROVER_loop_entry(g_win_new) && g_v_listed_at_win == __CPROVER_loop_entry(g_v_listed_at_win))
-__CPROVER_loop_invariant(WINDOW_OK(self) && V_REACH(self) && V_ABSENT(self) && V_ONCE)
-__CPROVER_loop_invariant(!LISTED(&g_V) || FRESH(&g_V))
-__CPROVER_loop_invariant(g_v_listed_at_win || (g_V.g_exec == 0 && !LISTED(&g_V) && !g_v_self_removed))
-__CPROVER_loop_invariant((g_v_listed_at_win && !LISTED(&g_V)) ==> ((g_V.g_exec == 1 && g_V.prev_ == NULL && (g_V.callback_finished_executing_ || g_v_self_removed)) || (g_V.g_exec == 0 && g_V.g_dead)))
-__CPROVER_loop_invariant(g_v_self_removed ? (g_V.g_exec == 1 && g_V.g_dead && !g_V.callback_finished_executing_) : (g_V.g_exec == 0 || g_V.callback_finished_executing_))
 """
-
-def RS_BODY(loop):
-    return Lift(CPP, r"bool stop_state::request_stop\(\)", rules=[
-                        Guard(r"scoped_lock_and_request_stop (\w+)\(\*this\);",
-                              r"struct scoped_lock \1; scoped_lock_and_request_stop_ctor(&\1, self);", r"scoped_lock_and_request_stop_dtor(&\1);", 1),
-                        Sub(r"\(!l\)", "(!scoped_lock_and_request_stop_bool(&l))", 1),
-                        Guard(r"detail::unlock_guard<stop_state> (\w+)\(\*this\);",
-                              r"struct unlock_guard \1; unlock_guard_ctor(&\1, self);", r"unlock_guard_dtor(&\1);", 1),
-                        LOAD, GET_SELF, EXEC, FLAG,
-                        Sub(r"\bauto\* (\w+) =", r"struct stop_callback_base *\1 =", 1),
-                        Members(["callbacks_", "signalling_thread_"])],
-                        loops=({1: loop, "count": 1} if loop else {"count": 1}))
-
 
 UNITS += [
     Unit("cb.add_callback", "cb.c", defines=["U_ADD_CALLBACK"], enforce="add_callback",
@@ -512,31 +592,41 @@ UNITS += [
          funcs=[CPP + ": detail::stop_state::add_callback, scoped_lock_if_not_stopped", FN_ADD_THIS], min_obligations=60),
 ] + [
     Unit("cb.remove_callback" + sfx, "cb.c", defines=["U_REMOVE_CALLBACK"] + kf, enforce="remove_callback", replace=["lock", "unlock"],
-         doc=doc,
+         doc=doc, tier=tier,
          lifts=dict(CB_COMMON, body=Lift(CPP, r"void stop_state::remove_callback\(stop_callback_base\* cb\)", rules=[
              Guard(r"std::lock_guard<stop_state> (\w+)\(\*this\);", "mon_lock(self);", "mon_unlock(self);", 1),
              Call(r"\b(\w+)->remove_this_callback", "remove_this_callback({h1})", 1),
              GET_SELF, Members(["signalling_thread_"]),
+             Call(r"(?<![\w.>])state_\.load", "atomic_load(&self->state_)", None),
              Call(r"\bpika::util::yield_while", lambda_loop, 1),
              Call(r"\b(\w+)->callback_finished_executing_\.load", "flag_load({h1})", 1)],
              loops={1: LOOP_SPIN, "count": 1})),
          funcs=[CPP + ": detail::stop_state::remove_callback", FN_REMOVE_THIS], min_obligations=60)
-    for (sfx, kf, doc) in [
-        ("", [], "full input domain: any thread kind, any history of the callback"),
+    for (sfx, kf, doc, tier) in [
+        ("", [], "full input domain: any thread kind, any history of the callback", "quick"),
+        (".pika_threads", ["KF_PIKA_THREADS_ONLY"], "input class (a) excluded only (isolates the never-registered-callback spin)", "thorough"),
+        (".registered", ["KF_REGISTERED_ONLY"], "input class (b) excluded only (isolates the two-OS-threads case)", "thorough"),
         (".pika_threads_registered", ["KF_PIKA_THREADS_ONLY", "KF_REGISTERED_ONLY"],
          "same contract with two input classes excluded: (a) signaller and caller are two different plain OS threads "
-         "(both report invalid_thread_id), (b) callback that add_callback refused because stop was impossible")]
+         "(both report invalid_thread_id), (b) callback that add_callback refused because stop was impossible", "quick")]
 ] + [
-    Unit("cb.request_stop.bounded3", "cb.c", defines=["U_REQUEST_STOP", "U_BOUNDED"], enforce="request_stop", kind="bounded",
-         replace=["lock", "unlock", "lock_and_request_stop"], unwind=5, loop_contracts=False, object_bits=12,
-         doc="bounded stand-in (not counted as proof): concrete list of <= 3 nodes in any order, loop unwound; the only "
-             "environment step between critical sections is the victim's deregistration",
-         lifts=dict(CB_COMMON, body=RS_BODY(None)),
+    Unit("cb.request_stop.bounded3", "cb.c", defines=["U_REQUEST_STOP", "U_BOUNDED"], enforce=None, kind="bounded",
+         unwind=5, loop_contracts=False,
+         doc="bounded stand-in (not counted as proof): the real bodies of request_stop, lock_and_request_stop, lock, unlock, "
+             "unlock_guard and the list primitives run end to end on a concrete list of <= 3 nodes in any order, loop unwound, "
+             "word accessed sequentially; the only environment step between critical sections is the victim's deregistration",
+         lifts=dict(CB_COMMON, body=RS_BODY(None, False), step=LoopBodyLift(CPP, RS, 1, rules=STEP_RULES)),
          funcs=[CPP + ": detail::stop_state::request_stop"], min_obligations=100),
+    Unit("cb.request_stop.step", "cb.c", defines=["U_REQUEST_STOP", "U_STEP"], enforce="drain_step", replace=["lock", "unlock"],
+         loop_contracts=False,
+         doc="one iteration of request_stop's callback loop (fragment unit: the loop body), arbitrary list seen through the "
+             "window, one symbolic victim",
+         lifts=dict(CB_COMMON, body=RS_BODY(LOOP_DRAIN, True), step=LoopBodyLift(CPP, RS, 1, rules=STEP_RULES)),
+         funcs=[CPP + ": detail::stop_state::request_stop (loop body)", UG + ": detail::unlock_guard"], min_obligations=100),
     Unit("cb.request_stop", "cb.c", defines=["U_REQUEST_STOP"], enforce="request_stop",
-         replace=["lock", "unlock", "lock_and_request_stop"],
-         lifts=dict(CB_COMMON,
-                    body=RS_BODY(LOOP_DRAIN)),
+         replace=["unlock", "lock_and_request_stop", "drain_step"],
+         doc="whole function; the loop body is outlined into drain_step, whose contract cb.request_stop.step proves",
+         lifts=dict(CB_COMMON, body=RS_BODY(LOOP_DRAIN, True), step=LoopBodyLift(CPP, RS, 1, rules=STEP_RULES)),
          funcs=[CPP + ": detail::stop_state::request_stop, scoped_lock_and_request_stop", UG + ": detail::unlock_guard"],
          min_obligations=100),
 ]
